@@ -898,7 +898,10 @@ def oracle_independent(ctx, classes, per_class):
                 try:
                     res = check_independent(cls, p, v, how, scenario)
                 except Exception as e:   # pylint: disable=broad-except
-                    res = ("independent/raises:" + scenario, f"{cls}: {type(e).__name__}: {e}")
+                    if scenario in ("shared-constructor-dict", "constructor-kwarg-next-to-dict"):
+                        res = (f"constructor-style/{cls}", f"{cls}(style=dict) raised {type(e).__name__}: {e}")
+                    else:
+                        res = ("independent/raises:" + scenario, f"{cls}: {type(e).__name__}: {e}")
                 ctx.case(("indep", cls, scenario, p, how), True)
                 ctx.bump("independent:" + scenario)
                 if res is not None:
@@ -1054,14 +1057,21 @@ def run(ctx):
     def corr():
         gen = HistGen(ctx.rng)
         cases = []
-        per = ctx.n(10, 160)
+        per = ctx.n(10, 60)
         for cls in classes:
             for _ in range(per):
                 cases.append(gen.case(cls, ctx.rng.randint(1, 6)))
         pairs = []
         skipped = 0
         for c in cases:
-            obs = impl_run(c)
+            try:
+                obs = impl_run(c)
+            except Exception as e:   # pylint: disable=broad-except
+                # the constructor itself raised on style arguments (errors in style values only surface at .style)
+                ctx.impl_fail(f"constructor-style/{c['cls']}",
+                              f"{c['cls']}(style={c['style']!r}, **{c['kwargs']!r}) raised {type(e).__name__}: {e}",
+                              {"kind": "ctor-history", "cls": c["cls"], "style": c["style"], "kwargs": c["kwargs"]})
+                continue
             if not usable(c, obs):
                 skipped += 1
                 ctx.bump("corr:skipped-foreign-exception")
@@ -1143,6 +1153,12 @@ def replay(ctx, obj):
         res = check_reject(rp["cls"], rp["p"], rp["v"], rp["how"], rp["bad_name"])
     elif k == "ctor":
         res = check_ctor(rp["cls"], rp["p"], rp["v"], rp["mode"])
+    elif k == "ctor-history":
+        try:
+            make_obj(rp["cls"], rp["style"], rp["kwargs"])
+            res = None
+        except Exception as e:   # pylint: disable=broad-except
+            res = f"{rp['cls']}(style=..) raised {type(e).__name__}: {e}"
     if res == "not-replayable":
         print(json.dumps(obj, indent=1)[:3000])
         return 0
